@@ -63,14 +63,16 @@ func checkC03(c *Ctx) {
 			c.OK("C03-R1", f.Name()+":replace-if", p.pos(f.Pos()), "store guarded by val != \"\" and (!exist || old.key == replace)")
 		}
 	}
-	for f := range writers {
-		if _, ok := regs[f]; !ok && f.Name() != "prepareKeys" {
-			c.Fail("C03-R1", f.Name()+":writer", p.pos(f.Pos()), "writes tScreen.keycodes with a guard shape that is neither first-wins nor replace-if")
-		}
-	}
 	c.Check(nFirst >= 1 && nRepl >= 1, "C03-R1", "registrars", "-", fmt.Sprintf("direct writers of keycodes: %v", names))
 	kt := buildKeyTables(c, p, db)
 	c03KT = kt
+	// the other writers: the control-byte pass (the function holding its loop and the helper the loop
+	// hands the byte to), recognised while the builder was folded
+	for f := range writers {
+		if _, ok := regs[f]; !ok && !ctlPassWriters[f.Name()] {
+			c.Fail("C03-R1", f.Name()+":writer", p.pos(f.Pos()), "writes tScreen.keycodes with a guard shape that is neither first-wins nor replace-if, and is not part of the control-byte pass")
+		}
+	}
 	if kt == nil {
 		c.Undecided("C03-R2", "fold", "-", "the key-table builder could not be constant-folded")
 		return
@@ -606,14 +608,15 @@ func c03AltPrefix(c *Ctx, p *Prog) {
 		fn := p.Fn("tcell:(*tScreen)." + want)
 		n, bad := 0, ""
 		if fn != nil {
-			for _, call := range callsIn(fn, func(nm string, _ *ssa.CallCommon) bool { return strings.HasSuffix(nm, "NewEventKey") }) {
-				cc := callCommon(call)
-				if len(cc.Args) != 3 {
+			// in the parser, or in the helper that makes the event for it (`t.keyCodeEvent(code, r)`)
+			for _, d := range deepInstrs(p, fn, 1, nil) {
+				cc := callCommon(d.in)
+				if cc == nil || !strings.HasSuffix(calleeName(cc), "NewEventKey") || len(cc.Args) != 3 {
 					continue
 				}
 				n++
-				if why := altAware(p, fn, cc.Args[2], takers, 0); why != "" {
-					bad += p.pos(call.Pos()) + ": " + why + "; "
+				if why := altAware(p, d.in.Parent(), cc.Args[2], takers, 0); why != "" {
+					bad += p.pos(d.in.Pos()) + ": " + why + "; "
 				}
 			}
 		}
